@@ -370,7 +370,7 @@ func main() {
 		}
 		var long strings.Builder
 		for p := 0; long.Len() < 9000; p++ {
-			long.WriteString(textgen.Render(textgen.Alphabet(p + 10), textgen.Layouts[0]))
+			long.WriteString(textgen.Render(textgen.Alphabet(p+10), textgen.Layouts[0]))
 		}
 		longText := long.String()
 		type cjob struct {
